@@ -43,8 +43,9 @@ type lvar struct {
 	typ     types.Type
 	nat     bool
 	isParam bool
-	inout   bool   // slice parameter whose elements the function writes: returned to the caller
-	leanT   string // non-empty: Lean type given directly (external operations)
+	inout   bool       // slice parameter whose elements the function writes: returned to the caller
+	leanT   string     // non-empty: Lean type given directly (external operations, abstracted interface values)
+	abs     *ifaceInfo // the variable holds a value of an abstracted interface (possibly narrowed by a type switch / assertion)
 }
 
 // externFields: struct fields holding an object that is not translated.  A
@@ -92,6 +93,8 @@ type fn struct {
 	escaped      bool
 	aux          []string
 	loopN        int
+	joinN        int
+	loopBinders  []scopeBinder
 	tmpN         int
 	outerLoop    token.Pos
 	pendingLabel string
@@ -101,14 +104,16 @@ type fn struct {
 }
 
 type xlator struct {
-	ld      *loader
-	where   string
-	allowed map[string]bool // "pkgpath recv name"
-	funcs   map[string]*fnInfo
-	structs map[*types.Named]*structInfo
-	pkgMaps map[*types.Var]string
-	out     strings.Builder
-	summary []string
+	ld         *loader
+	where      string
+	allowed    map[string]bool // "pkgpath recv name"
+	funcs      map[string]*fnInfo
+	structs    map[*types.Named]*structInfo
+	pkgMaps    map[*types.Var]string
+	ifaces     map[string]*ifaceInfo
+	ifaceOrder []*ifaceInfo
+	out        strings.Builder
+	summary    []string
 }
 
 func (x *xlator) emit(s string) { x.out.WriteString(s) }
@@ -371,6 +376,56 @@ func (f *fn) declare() {
 			f.newVar(o, false)
 		}
 	}
+	// values of abstracted interfaces: parameters/variables of the interface type, the symbol of
+	// a type switch over such a value (an alias of it), the result of a type assertion on it
+	for _, lv := range f.order {
+		if ii := f.x.ifaceOf(lv.typ); ii != nil {
+			lv.abs = ii
+		}
+	}
+	ast.Inspect(f.decl.Body, func(n ast.Node) bool {
+		switch n := n.(type) {
+		case *ast.TypeSwitchStmt:
+			var ta *ast.TypeAssertExpr
+			switch a := n.Assign.(type) {
+			case *ast.AssignStmt:
+				ta, _ = a.Rhs[0].(*ast.TypeAssertExpr)
+			case *ast.ExprStmt:
+				ta, _ = a.X.(*ast.TypeAssertExpr)
+			}
+			if ta == nil {
+				f.unsupported(n, "type switch")
+			}
+			id, ok := ta.X.(*ast.Ident)
+			if !ok {
+				f.unsupported(n, "type switch on an expression that is not a variable")
+			}
+			src := f.lvarOf(id)
+			if src.abs == nil {
+				f.unsupported(n, "type switch on a value of a type that is not an abstracted interface")
+			}
+			for _, c := range n.Body.List {
+				if o, ok := f.pkg.info.Implicits[c].(*types.Var); ok {
+					f.vars[o] = src
+				}
+			}
+		case *ast.AssignStmt:
+			if len(n.Rhs) == 1 {
+				if ta, ok := n.Rhs[0].(*ast.TypeAssertExpr); ok && ta.Type != nil {
+					if id, ok := ta.X.(*ast.Ident); ok {
+						if src := f.lvarOf(id); src.abs != nil {
+							if lid, ok := n.Lhs[0].(*ast.Ident); ok && lid.Name != "_" {
+								lv := f.lvarOf(lid)
+								lv.abs = src.abs
+								lv.leanT = src.abs.lean
+							}
+						}
+					}
+				}
+			}
+		}
+		return true
+	})
 	f.info.externs = nil
 	f.externByName = map[string]*lvar{}
 	ast.Inspect(f.decl.Body, func(n ast.Node) bool {
@@ -406,7 +461,6 @@ func (f *fn) declare() {
 		}
 		return true
 	})
-	// type-switch symbols are Implicits; handled where they occur
 	for _, id := range ids {
 		o := f.pkg.info.Uses[id]
 		if o == nil {
@@ -508,6 +562,11 @@ func (f *fn) analyse() {
 	rhsNat := func(e ast.Expr, i int) bool {
 		if c, ok := e.(*ast.CallExpr); ok && f.isExternCall(c) {
 			return false
+		}
+		if c, ok := e.(*ast.CallExpr); ok {
+			if lv, _ := f.absRecv(c); lv != nil {
+				return false
+			}
 		}
 		if c, ok := e.(*ast.CallExpr); ok {
 			if id, ok := c.Fun.(*ast.Ident); ok {
@@ -783,7 +842,21 @@ var whitelist = []target{
 	{"message", "Type", "Valid"},
 	{"message", "Type", "DefaultFlags"},
 	{"message", "ConnackCode", "Valid"},
-	{"topics", "", "checkSys"},
+	{"topics", "", "checkTopic"},
+	// C13: the ack queue
+	{"sessions", "Ackqueue", "len"},
+	{"sessions", "Ackqueue", "cap"},
+	{"sessions", "Ackqueue", "index"},
+	{"sessions", "Ackqueue", "full"},
+	{"sessions", "Ackqueue", "empty"},
+	{"sessions", "Ackqueue", "increment"},
+	{"sessions", "Ackqueue", "grow"},
+	{"sessions", "Ackqueue", "removeHead"},
+	{"sessions", "Ackqueue", "insert"},
+	{"sessions", "Ackqueue", "Wait"},
+	{"sessions", "Ackqueue", "Ack"},
+	{"sessions", "Ackqueue", "Acked"},
+	{"sessions", "", "newAckqueue"},
 }
 
 func main() {
@@ -792,7 +865,7 @@ func main() {
 	}
 	repo, outPath := strings.TrimRight(os.Args[1], "/"), os.Args[2]
 	x := &xlator{ld: newLoader(repo), allowed: map[string]bool{}, funcs: map[string]*fnInfo{},
-		structs: map[*types.Named]*structInfo{}, pkgMaps: map[*types.Var]string{}}
+		structs: map[*types.Named]*structInfo{}, pkgMaps: map[*types.Var]string{}, ifaces: map[string]*ifaceInfo{}}
 	for _, t := range whitelist {
 		x.allowed[key(x.pkgPath(t), t.recv, t.name)] = true
 	}
@@ -831,6 +904,7 @@ func main() {
 	o.WriteString("namespace Mqtt.Generated.Xlate\n\n")
 	o.WriteString(prelude)
 	o.WriteString("\n")
+	o.WriteString(x.ifaceDecls())
 	o.WriteString(x.out.String())
 	o.WriteString("end Mqtt.Generated.Xlate\n")
 
